@@ -11,9 +11,13 @@ obs:  see harness/cmd/shutdown/main.go; every obs of a model op ends with
 -/
 open Refinery Refinery.Model.Shutdown Oracle
 
-/-- `false`: the code as it is (Stop does not drain the workers, healthCheck ignores the cancelled
-context); `true`: the proposed repair.  Flip when the fix is applied to /repo. -/
-def variant : Bool := true
+/-- collector / transmission: `false` = the code as it is (`InMemCollector.Stop` does not drain the
+workers), `true` = the proposed repair.  Flip when the drain fix is applied to /repo. -/
+def variant : Bool := false
+
+/-- `Agent.healthCheck`: `true` = the code as it is since commit 4b2120c (returns on `ctx.Done()`),
+`false` = the loop before that commit (spins). -/
+def variantAgent : Bool := true
 
 structure OSt where
   c : Cfg := {}
@@ -132,7 +136,7 @@ def oStep (o : OSt) (op : List String) (exts : List (List String)) : OSt × Opti
       s!"pend={pend} fl=0"
   | ["gor"] => (o, some "*")
   | ["agent"] =>
-    let hc := match hcRun variant [.done] with
+    let hc := match hcRun variantAgent [.done] with
       | .exited => "gone"
       | .running => "spinning"
     (o, some s!"hc={hc} usage=gone")
